@@ -186,6 +186,32 @@ def exact_matrices(F, sel, facts):
                                  ('neg', -A, [-x for x in a])):
             if type(got) is not M or list(got) != wantm:
                 viol('matrix_%s_is_entry_wise' % name, n=n)
+    # structured operands: affine-looking matrices (last column (0, 0, 0, w)), negated and summed transforms -
+    # the shapes on which a special-cased fast path of the product would be taken
+    for w1, w2 in ((1, 1), (F[61], F[61]), (2, 2), (-1, -1), (F[61], F[62]), (0, 0), (Fraction(1, 2), Fraction(1, 2))):
+        a, b = list(F[0:16]), list(F[16:32])
+        for m_, w in ((a, w1), (b, w2)):
+            m_[3], m_[7], m_[11], m_[15] = 0, 0, 0, w
+        got = dm.Mat4(tuple(a)) @ dm.Mat4(tuple(b))
+        want = ref_matmul(a, b, 4)
+        if tuple(got) != want:
+            viol('matmul_is_the_row_by_column_product_of_the_written_grids', n=4, structured='last column (0,0,0,w)',
+                 w=(w1, w2), got=tuple(got), expected=want)
+        # transposed shape: last row (0, 0, 0, w)
+        at, bt = list(F[0:16]), list(F[16:32])
+        for m_, w in ((at, w1), (bt, w2)):
+            m_[12], m_[13], m_[14], m_[15] = 0, 0, 0, w
+        got = dm.Mat4(tuple(at)) @ dm.Mat4(tuple(bt))
+        if tuple(got) != ref_matmul(at, bt, 4):
+            viol('matmul_is_the_row_by_column_product_of_the_written_grids', n=4, structured='last row (0,0,0,w)',
+                 w=(w1, w2))
+    facts['structured_affine_operands'] += 1
+    A4, B4 = dm.Mat4(tuple(F[0:16])), dm.Mat4(tuple(F[16:32]))
+    if tuple((-A4) @ (-B4)) != tuple(A4 @ B4):
+        viol('product_of_negated_matrices_equals_the_product')
+    C4 = dm.Mat4(tuple(F[32:48]))
+    if tuple((A4 + B4) @ C4) != tuple((A4 @ C4) + (B4 @ C4)):
+        viol('matmul_distributes_over_addition')
     a = tuple(F[0:16])
     A = dm.Mat4(a)
     T = A.transpose()
